@@ -287,6 +287,41 @@ func runC12(tier string) int {
 				Replay: map[string]interface{}{"position": pos.name, "source": src, "switches": o.Switches, "selected_source": selSrc, "output": res.Out, "selected_output": ref.Out}})
 		}
 	})
+	// dictionary sweep: every identifier-like literal of the compiler's own source as a case label, as the -s value and
+	// as the switch key, in every position, colon and brace form
+	words := dictIdents()
+	sweepDone := r.Parallel(uint64(len(words))*uint64(len(positions))*4, func(w int, idx uint64) {
+		variant := int(idx % 4)
+		x := idx / 4
+		pos := positions[x%uint64(len(positions))]
+		word := words[x/uint64(len(positions))]
+		if word == "_" {
+			return
+		}
+		ct := pos.contents[0]
+		key := "V"
+		if variant >= 2 {
+			key = word
+		}
+		c0, c1 := word+": "+fill(ct.src, 0), "_: "+fill(ct.src, 1)
+		if variant%2 == 1 {
+			c0, c1 = word+" {\n"+fill(ct.src, 0)+"\n}", "_ {\n"+fill(ct.src, 1)+"\n}"
+		}
+		src := pos.wrap("poryswitch(" + key + ") {\n" + c0 + "\n" + c1 + "\n}")
+		for sel, v := range []string{word, word + "x"} {
+			o := comp.Opts{Optimize: true, Switches: map[string]string{key: v, "W": "1"}}
+			res, ref := comp.Compile(src, o), comp.Compile(pos.wrap(fill(ct.sel, sel)), o)
+			r.Add("evaluations", 1)
+			r.Add("dictionary_sweep", 1)
+			if res.Err != nil || ref.Err != nil || res.Panic+ref.Panic != "" || res.Out != ref.Out {
+				r.Report(harness.Violation{Sig: "C12:dictionary:" + pos.name, Summary: fmt.Sprintf("position=%s case label %q, -s %s=%s: error %v / %v; %s", pos.name, word, key, v, res.Err, ref.Err, firstDiff(res.Out, ref.Out)), Replay: map[string]interface{}{"position": pos.name, "source": src, "switches": o.Switches, "output": res.Out, "selected_output": ref.Out}})
+			}
+		}
+	})
+	if !sweepDone {
+		r.NotExhaustive("dictionary sweep not completed")
+	}
+	r.Set("dictionary_words", len(words))
 	// the property lifted over the control-flow program families: every program with (1) its whole body, (2) every
 	// block, (3) each single top-level statement (colon form) moved into the selected case of a poryswitch - selected
 	// directly or through '_' after an unselected case - must compile to exactly the output of the plain program
@@ -322,7 +357,7 @@ func runC12(tier string) int {
 		"the selected program must itself be well-formed; case contents never contain 'continue'",
 		"line markers off; all switch keys defined; the file also defines constants named like case labels and switch values")
 	return r.Finish(r.Get("evaluations"), r.Get("nontrivial"),
-		"every poryswitch with 1-3 distinct case labels from {A, B, 1, _} in every order x colon/brace form per case x every content assignment (11-13 statement contents incl. one literal formatted under different parameters in different cases, inline texts, typed texts, labels, control flow, nested poryswitches; 8 text contents incl. typed, formatted (also one literal under three parameter sets) and multi-part; 7 movement and 6 mart contents incl. nested poryswitches, multipliers, terminators) in 8 positions (statement, in if, in loop, in inline map script, text, movement, moves(), mart) x -s value in {A, B, 1, non-matching}; plus poryswitches with K cases for every K up to the bound in the coverage in every position with the first / middle / last case or '_' selected; also every program of the control-flow families (C01 / C03 / C04 bounds) with its whole body, every block, or one top-level statement moved into the selected case (brace and colon form, selected directly and through '_'); output compared byte for byte with the program in which the selected case is written out; non-trivial = >= 2 cases")
+		"every poryswitch with 1-3 distinct case labels from {A, B, 1, _} in every order x colon/brace form per case x every content assignment (11-13 statement contents incl. one literal formatted under different parameters in different cases, inline texts, typed texts, labels, control flow, nested poryswitches; 8 text contents incl. typed, formatted (also one literal under three parameter sets) and multi-part; 7 movement and 6 mart contents incl. nested poryswitches, multipliers, terminators) in 8 positions (statement, in if, in loop, in inline map script, text, movement, moves(), mart) x -s value in {A, B, 1, non-matching}; plus poryswitches with K cases for every K up to the bound in the coverage in every position with the first / middle / last case or '_' selected; also every identifier-like literal of the compiler's own source as case label, -s value and switch key in every position; also every program of the control-flow families (C01 / C03 / C04 bounds) with its whole body, every block, or one top-level statement moved into the selected case (brace and colon form, selected directly and through '_'); output compared byte for byte with the program in which the selected case is written out; non-trivial = >= 2 cases")
 }
 
 // c12Wrappings rewrites a printed single-script program (one statement per line, tab indentation) so that
